@@ -8,22 +8,70 @@ _REQ = ["src/HttpRequest.cc", "src/http/Message.cc", "src/anyp/Uri.cc", "src/any
 _U = TOK + ["src/BodyPipe.cc"] + _JOBS + _HDR + _REQ + ["src/http.cc", "src/clients/Client.cc", "src/adaptation/Initiator.cc", "src/CommCalls.cc",
             "src/comm/Connection.cc", "src/base/JobWait.cc", "src/http/one/TeChunkedParser.cc", "src/http/one/Tokenizer.cc"]
 _e = lambda n, b, r, **kw: dict(name=n, bounds=b, reach=list(r), **dict(dict(sample_every=97, max_samples=3), **kw))
+_PL = ("all-relayed", "complete-not-drained", "aborted", "in-progress", "full")
+_RL = ("relayed", "aborted", "in-progress", "write-error")
+_PIPE = ("real BodyPipe with capacity cap in 1..3 (symbolic) instead of 64 KB; body bytes (and the byte after the body) fully symbolic; consumer joins before the first byte or after the "
+         "last operation; operation sequence: {put} offer a (every size 0..rest+1), getMoreData into room g (every 0..content), {put} offer b (every size), then %s "
+         "from {{put} of every size, getMoreData into room 1..3, consume(m) for every m <= content, producer stops early%s}; after every operation: counters, buffered bytes, "
+         "delivered bytes, productionEnded()/exhausted()/bodySize() against the ghost model; at the end the consumer's notifications (ended iff complete, aborted iff stopped early)")
+_EV = ("events, each followed by the delivery of all queued AsyncCalls: client segment arrives (%s), pending Comm::Write completes, pending Comm::Write fails, "
+       "client goes away, server-side job starts (FwdState dispatch; any time, also after the body ended); then all pending writes complete. After every event: what the origin has "
+       "received is a valid prefix (never malformed, never more than the body, bytes equal the client's, complete only if the whole body was received); at rest: complete body => exactly "
+       "the body in one complete message + request_sent; aborted/failed => connection closed, job gone, never completed; in progress => every accepted byte already forwarded")
 SPEC = dict(
     harness="C02_bodypipe.cc", units=_U, unit_flags={"compat/xstring.cc": ["-Dxstrdup=vf_unused_squid_xstrdup"]},
     scope="kernel",
-    scope_note="kernel decided: ...; gap: ...",
+    scope_note="kernel decided: (A) BodyPipe::putMoreData/getMoreData/consume/checkOut+checkIn/clearProducer/setConsumerIfNotLate with MemBuf conserve the body bytes and their order under "
+               "every bounded operation sequence, never accept bytes beyond a declared size, and tell the consumer 'production ended' only for a completely produced body ('producer "
+               "aborted' for every other end); (B) client bytes (identity with Content-Length, or chunked and decoded by the real TeChunkedParser through BodyPipeCheckout) -> real BodyPipe "
+               "-> real HttpStateData/Client request-body sender (noteMoreBodyDataAvailable, sendMoreRequestBody, getMoreRequestBody incl. re-chunking, sentRequestBody, "
+               "handleRequestBodyProductionEnded, doneSendingRequestBody, finishingChunkedRequest, wroteLast, handleRequestBodyProducerAborted, swanSong/closeServer), driven by the real "
+               "AsyncCallQueue under every bounded schedule of arrivals, write completions, write failure and client disconnect: the bytes handed to Comm::Write for the server connection "
+               "are the client's body bytes in order inside valid framing (declared length, or chunks that a strict RFC 9112 reference decoder accepts), the last-chunk / full length is "
+               "reached only when the whole body was received, and an early end always closes the server connection before that. "
+               "gap: ConnStateData's own intake code (handleRequestBodyData/handleChunkedRequestBody are mirrored by ~40 harness lines around the real pipe and the real chunked parser), "
+               "request header generation (Content-Length vs Transfer-Encoding: chunked upstream: C03), comm (writes are atomic and complete or fail as a whole), Expect: 100-continue, "
+               "ICAP/eCAP request adaptation pipes, FTP upload, pipe capacity 64 KB and bodies beyond a few bytes (33 for one chunk)",
     entries=dict(
         quick=[
-            _e("c02_pipe_cl", "x", ("all-relayed", "aborted", "in-progress", "full")),
-            _e("c02_pipe_chunked", "x", ("all-relayed", "aborted", "in-progress", "full")),
-            _e("c02_relay_cl", "x", ("relayed", "aborted", "in-progress", "write-error")),
-            _e("c02_relay_chunked", "x", ("relayed", "aborted", "in-progress", "write-error")),
+            _e("c02_pipe_cl", "declared body size cap+1; " + _PIPE % ("1 free operation", ""), _PL),
+            _e("c02_pipe_chunked", "unknown body size (chunked intake: the producer appends through BodyPipeCheckout, {put} = checkout+append+checkIn), body of 0 or cap+1 bytes; "
+               + _PIPE % ("1 free operation", ", producer stops at eof"), _PL),
+            _e("c02_relay_cl", "Content-Length body of 1..3 symbolic bytes + 1 symbolic byte of the next request, pipe capacity 1..2, identity upstream; 4 " + _EV % "every size", _RL, sample_every=23),
+            _e("c02_relay_chunked", "chunked client body of 0..2 symbolic bytes in 1..2 chunks (every cut; concrete framing by a reference encoder) + 1 byte of the next request, pipe capacity 1..2, "
+               "re-chunked upstream (identity with the dechunked length when the server side starts after the last-chunk); 4 "
+               + _EV % "1 or 2 bytes, or up to the end of a chunk's data / a chunk / the body / everything sent", _RL, sample_every=197),
+            _e("c02_relay_hex", "one client chunk of 10, 15, 16 or 27 symbolic bytes (chunk-size a, f, 10, 1b upstream), pipe holds the whole body; 3 "
+               + _EV % "1 or 2 bytes, or up to the end of the chunk's data / the chunk / the body / everything sent", _RL, sample_every=23),
         ],
         thorough=[
-            _e("c02_pipe_cl", "x", ("all-relayed", "aborted", "in-progress", "full")),
-            _e("c02_pipe_chunked", "x", ("all-relayed", "aborted", "in-progress", "full")),
+            _e("c02_pipe_cl", "declared body size 1..5; " + _PIPE % ("2 free operations", ""), _PL, sample_every=997),
+            _e("c02_pipe_chunked", "unknown body size, body of 0..5 bytes; " + _PIPE % ("2 free operations", ", producer stops at eof"), _PL, sample_every=997),
+            _e("c02_relay_cl", "as quick with bodies of 1..4 bytes and 6 events", _RL, sample_every=397),
+            _e("c02_relay_chunked", "as quick with bodies of 0..3 bytes and 5 events", _RL, sample_every=1997),
+            _e("c02_relay_hex", "as quick with one chunk of every size 9..33", _RL, sample_every=197),
         ]),
-    timeout=dict(quick=300, thorough=1500),
-    stubs=[],
-    outside="",
+    timeout=dict(quick=400, thorough=2400),
+    stubs=["Comm::Write() (both overloads) records the bytes as received by the origin and keeps the callback; the harness completes a write the way Comm::IoCallback::finish() does "
+           "(CommIoCbParams conn/fd/size/flag, ScheduleCallHere) with Comm::OK or Comm::COMM_ERROR; comm_add/remove_close_handler, commSetConnTimeout (counted), _comm_close (counted), "
+           "fd_bytes are recorders/no-ops; fde::Table is 8 zeroed entries; statCounter is a zero-initialised global",
+           "HttpStateData is created by its real constructor from a FwdState; AsyncJob::Start()/HttpStateData::sendRequest() are replaced by their request-body part performed by the "
+           "harness: started_ = true, real startRequestBodyFlow(), requestSender = JobCallback(sentRequestBody), flags.chunked_request = request has no Content-Length, "
+           "Comm::Write of a 2-byte stand-in for the header block",
+           "FwdState.cc is not linked (its globals need the connection pools): FwdState's constructor/destructor are defined by the harness (member initialisation only), "
+           "fail()/unregister()/handleUnregisteredServerEnd() are recorders; PeeringActivityTimer constructor/destructor likewise",
+           "HttpRequest, MasterXaction, Comm::Connection are real objects; StoreEntry and MemObject are zeroed raw memory (StoreEntry::lock/unlock no-ops, MemObject::endOffset() = 0: no "
+           "reply received yet); ErrorState: harness-defined constructor (type and status only), MakeNamedErrorDetail() returns nil",
+           "client side = harness class ClientSide (a BodyProducer job) mirroring ConnStateData::expectRequestBody/handleRequestBodyData/handleChunkedRequestBody/finishDechunkingRequest/"
+           "noteMoreBodySpaceAvailable/noteBodyConsumerAborted and swanSong's stopProducingFor(pipe, false); group A uses minimal producer/consumer jobs that count notifications",
+           "BodyPipe capacity: theBuf re-initialised with max_capacity cap+1 (MemBuf keeps one byte for its terminator); pipes, requests, FwdState are never destroyed",
+           "MemPools::create() returns a plain-heap allocator (cbdata.cc allocation); Mem::AllocatorProxy = plain heap; bitcode build only: libstdc++'s out-of-line "
+           "_Prime_rehash_policy members (AsyncJob's registry of all jobs) replaced by a simple growth policy",
+           "ping_data constructor (peer_select.cc not linked), null_string (globals.cc not linked), StatHist::enumInit/count no-ops; SquidConfig Config is the real global, "
+           "zero-initialised (no brokenPosts ACL, read timeout 0); compat/xstring.cc is the real file with its xstrdup renamed away (xstrdup is an engine model)", "debugs() disabled"],
+    assumptions=["one main-loop iteration = one external event followed by AsyncCallQueue::fire() (which drains the queue, including calls scheduled meanwhile), as EventLoop::runOnce() does",
+                 "a Comm::Write either completes or fails as a whole; bytes count as received by the origin when handed to Comm::Write",
+                 "chunked client bodies: segment ends are restricted to 1-2 bytes ahead or chunk-structure boundaries (arbitrary segmentation of the chunked framing itself is C24's subject)"],
+    outside="bodies, pipe capacities, event counts and chunk counts beyond the bounds; chunk extensions/trailers from the client (C24); several writes failing; early server replies "
+            "(entry no longer empty) and server-side aborts; auto-consumption after the consumer aborted beyond what the schedules reach; everything listed under gap",
 )
